@@ -48,10 +48,17 @@ structure Container where
   res : Resources
   deriving DecidableEq, Repr, Inhabited
 
-/-- Pod affinity: `required = none` covers Affinity==nil, NodeAffinity==nil and
-RequiredDuringScheduling==nil; `other` is an opaque fingerprint of everything else in the
-Affinity struct (pod affinity, preferred terms). `hasNodeAffinity` distinguishes
-NodeAffinity!=nil (needed by `checkNodeSelector`'s early return — same result). -/
+/-- a node annotation `resources.extendeddaemonset.datadoghq.com/<ns>.<eds>.<container>` as parsed
+by the harness with `json.Unmarshal` into `ResourceRequirements` (`ok = false`: malformed JSON). -/
+structure Override where
+  container : String
+  ok : Bool
+  res : Resources
+  deriving DecidableEq, Repr, Inhabited
+
+/-- Affinity convention (Template, Pod): `affRequired = none` covers Affinity==nil, NodeAffinity==nil
+and RequiredDuringScheduling==nil; `affOther` is an opaque fingerprint of everything else in the
+Affinity struct (pod affinity, preferred terms). -/
 structure Node where
   name : String
   labels : SMap
@@ -60,6 +67,8 @@ structure Node where
   /-- `comparison.GenerateHashFromEDSResourceNodeAnnotation(ns, eds, annotations)` as computed by
   the real function in the harness (its defining property has its own stream, C10). -/
   resHash : String := ""
+  /-- the node's resource-override annotations for (ns, eds), one per container name -/
+  overrides : List Override := []
   deriving DecidableEq, Repr, Inhabited
 
 structure Template where
